@@ -97,6 +97,7 @@ func typedPositions() []typedPos {
 		{name: "string-slice-literal-element", stmt: "x := []string{@@}\nprint(len(x))", allowed: []string{"string"}},
 		{name: "slice-element-assign", stmt: "vis[0] = @@", allowed: []string{"int"}},
 		{name: "bool-slice-element-assign", stmt: "vbs[0] = @@", allowed: []string{"bool"}},
+		{name: "print-argument", stmt: "print(@@)", allowed: append(append([]string{}, anyVal...), "multi")},
 		{name: "len-argument", stmt: "x := len(@@)\nprint(x)", allowed: []string{"string", "[]int", "[]bool", "[]string"}},
 		{name: "itoa-argument", stmt: "x := itoa(@@)\nprint(x)", allowed: []string{"int"}},
 		{name: "input-prompt", stmt: "x := input(@@)\nprint(x)", allowed: []string{"string"}},
